@@ -87,7 +87,7 @@ def build(scen, trunc_at=None):
                 t = el[:at]
                 faults["truncate"] = faults.get("truncate", 0) + 1
             else:
-                t, op = J.corrupt(el, random.Random(st["seed"]))
+                t, op = J.corrupt(el, random.Random(st["seed"]), st.get("force"))
                 faults["corrupt_" + op] = faults.get("corrupt_" + op, 0) + 1
             if tty:
                 t = t.replace("\x00", "") + "\n"
@@ -147,6 +147,10 @@ def generate(seed, tier, index):
             steps.append({"kind": "trunc", "spec": m["spec"], "style": m["style"], "at": rng.randint(1, max(1, e - s - 1))})
         else:
             steps.append({"kind": "corrupt", "spec": m["spec"], "style": m["style"], "seed": rng.randrange(1 << 30)})
+            if rng.random() < 0.15:
+                steps[-1]["spec"] = gen.message(rng.choice(["setNumberVector", "newNumberVector", "defNumberVector"]))
+                if steps[-1]["spec"]["children"]:
+                    steps[-1]["force"] = "bad_number"
         for _ in range(rng.randint(1, 3)):
             steps.append(msg())
         steps.append({"kind": "filler", "n": 0})
